@@ -473,11 +473,7 @@ class FuncBody:
                 elif t == "int" or t == "?":
                     self.p.feat("expr:not-of-possibly-constant")
             if op in "-~" and (t == "?" or self.p.base_of(t) in SUBINT or a.startswith("'")):
-                # ppci does not promote the operand (and types 'a' as char): an 8/16-bit NEG/INV results
-                if A_NARROW in self.p.avoid:
-                    a = "((int)%s)" % a
-                else:
-                    self.p.feat("expr:unary-on-sub-int")
+                self.p.feat("expr:unary-on-sub-int")
             self.p.feat("expr:unary" + op)
             return "(%s(%s))" % (op, a) if a.startswith(("-", "+")) else "(%s%s)" % (op, a)
         if c < 0.80:
@@ -511,11 +507,7 @@ class FuncBody:
                 return ";"
             op = r.choice(("=", "=", "=", "+=", "-=", "*=", "/=", "%=", "<<=", ">>=", "&=", "|=", "^="))
             if op in ("*=", "/=", "%=") and self.p.base_of(t) in SUBINT:
-                # ppci performs the operation in the (narrow) type of the left operand
-                if A_NARROW in self.p.avoid:
-                    op = "+="
-                else:
-                    self.p.feat("stmt:narrow-compound-mul-div")
+                self.p.feat("stmt:narrow-compound-mul-div")
             self.feat("assign" + op)
             rhs = self.expr() if op not in ("<<=", ">>=") else str(r.randrange(0, 8))
             return "%s %s %s;" % (lv, op, rhs)
